@@ -48,6 +48,9 @@ def strategy(tier):
 def enumerated(tier, seed):
     out = []
     T = 4000 if tier == "quick" else 40000
+    # occupation probabilities extremely close to 1 and to 0 on large graphs (a draw of limited resolution shows here)
+    out.append({"stat": True, "extreme": "near_one", "M": 30000, "phi": 1 - 1e-9, "T": 30, "seed": seed * 100 + 92})
+    out.append({"stat": True, "extreme": "near_zero", "M": 60000, "phi": 1e-5, "T": 40, "seed": seed * 100 + 93})
     out.append({"stat": True, "bigstar": True, "M": 3000, "phi": 0.3, "T": 30 if tier == "quick" else 100, "seed": seed * 100 + 90})
     out.append({"stat": True, "bigstar": True, "M": 1500, "phi": 0.5, "T": 30 if tier == "quick" else 100, "seed": seed * 100 + 91})
     for i, (M, phi) in enumerate([(4, 0.2), (7, 0.35), (12, 0.7), (1, 0.08), (3, 0.05), (2, 0.93)] + ([(5, 0.7), (9, 0.2), (10, 0.35)] if tier == "thorough" else [])):
@@ -71,6 +74,30 @@ def check(case):
     from gcmpy import bond_percolate
     if case.get("stat"):
         M, phi, T = case["M"], case["phi"], case["T"]
+        if case.get("extreme") == "near_one":
+            # a path with M bonds at phi = 1 - 1e-9: all bonds survive with probability (1-1e-9)^M = 1 - 3e-5 per run,
+            # so three or more broken runs out of T = 30 have probability below 1e-10
+            G = nx.path_graph(M + 1)
+            broken = 0
+            with rng.seeded(case["seed"]):
+                for _ in range(T):
+                    if call("percolate", bond_percolate, G, phi) < 1.0:
+                        broken += 1
+            if broken >= 3:
+                raise Violation("near-one", f"path with {M} bonds, phi = 1 - 1e-9: {broken} of {T} runs lost a bond "
+                                            f"(expected about {T * M * 1e-9:.4f})")
+            return {"nontrivial": True, "classes": ["statistical", "phi_near_one"], "notes": {"broken_runs": broken}}
+        if case.get("extreme") == "near_zero":
+            # a star with M leaves at phi = 1e-5: the total number of retained leaves over T runs is Binomial(T*M, phi),
+            # mean T*M*phi = 24; zero has probability e^-24 < 1e-10
+            G = nx.star_graph(M)
+            tot = 0.0
+            with rng.seeded(case["seed"]):
+                for _ in range(T):
+                    tot += call("percolate", bond_percolate, G, phi) * (M + 1) - 1
+            if round(tot) == 0:
+                raise Violation("near-zero", f"star with {M} leaves, phi = 1e-5: no leaf retained in {T} runs (expected about {T * M * phi:.0f})")
+            return {"nontrivial": True, "classes": ["statistical", "phi_near_zero"], "notes": {"retained_total": tot}}
         if case.get("bigstar"):
             # many edges: the number of retained leaves is Binomial(M, phi); z-test of the mean over T runs
             G = nx.star_graph(M)
